@@ -218,13 +218,15 @@ class BcastClientSide(Redis):
                     value = default
                 values[key] = value
                 missed_keys.remove(self._add_prefix(key))
-        missed_values = await super().get_many(*missed_keys, default=default)
+        # `_empty`, not the caller's default, tells "the server has nothing": a stored value may be equal (or identical) to it
+        missed_values = await super().get_many(*missed_keys, default=_empty)
         missed = dict(zip((self._remove_prefix(key) for key in missed_keys), missed_values))
         for key, value in missed.items():
-            if value is not default:
+            if value is not _empty:
                 await self._local_cache.set(key, value)
             else:
                 await self._local_cache.set(key, _empty_in_redis)
+                missed[key] = default
         return tuple(missed.get(key, value) for key, value in values.items())
 
     async def get_match(self, pattern: str, batch_size: int = 100) -> AsyncIterator[tuple[Key, Value]]:  # type: ignore
